@@ -200,6 +200,17 @@ example : (C15Tree.join 4 (get exQ) (star 4 exQ).nodes 0 0 1).2.1 = [.bin 1 (.ti
 theorem gen_join_score_eq (pt : PT) (i j : Nat) :
     (C15Tree.join pt.L (get pt.d) pt.nodes pt.score i j).2.2 = (NJ.join pt i j).score := rfl
 
+/-- the `length` that `convert` stores (tips and inner nodes, as translated) is the model's `clamp0`, and applying it to a length
+that `join` has already clamped changes nothing — the model's reason for keeping the clamped lengths in `T.bin` -/
+theorem gen_convert_length_eq (x : Rat) :
+    C15Tree.tip_convert_length x = clamp0 x ∧ C15Tree.node_convert_length x = clamp0 x ∧
+      C15Tree.node_convert_length (pymax 0 x) = pymax 0 x ∧ C15Tree.tip_convert_length (pymax 0 x) = pymax 0 x := by
+  refine ⟨rfl, rfl, ?_, ?_⟩ <;>
+  · simp only [C15Tree.node_convert_length, C15Tree.tip_convert_length, pymax]
+    split_ifs <;> rfl
+
+example : C15Tree.tip_convert_length (-3) = 0 ∧ C15Tree.node_convert_length (5 / 2) = 5 / 2 := by decide +kernel
+
 /-- one pass of the `gnj(keep=1)` loop through the translated functions (`genNjStep`: translated score matrix, first off-diagonal minimum, translated `join`) is the model's `join` of the model's `pickPair` -/
 theorem gen_nj_step_eq (pt : PT) (hn : pt.nodes.length = pt.L) (h2 : 2 ≤ pt.L) :
     genNjStep pt = NJ.join pt (pickPair pt).1 (pickPair pt).2 := by
